@@ -140,6 +140,10 @@ def _pick_strlen(r):
         return r.choice([126, 127, 128, 129, 130, 191, 192, 193])
     if c == 3:
         return r.randrange(0, 301)
+    if c == 4 and r.random() < 0.25:
+        # long strings (paths, mangled names, producer strings with every compiler flag): around the page size, around sums of
+        # doubling read chunks (64+128+...+4096 = 8128), beyond 64 KiB
+        return r.choice([1000, 4031, 4032, 4095, 4096, 4097, 8127, 8128, 8129, 8192, 16383, 16384, 70000]) + r.choice([0, 0, 0, 1, -1])
     return r.randrange(0, 40)
 
 
@@ -433,6 +437,20 @@ def _construct_for(kind, params):
     return c
 
 
+def _scribble(raw):
+    """The caller owns what a parse returned: it edits returned containers in place (appends to a decoded block, ...).  A later
+    parse must not hand the edited object out again."""
+    try:
+        if isinstance(raw, list):
+            raw.append(0x5a5a)
+        elif isinstance(raw, dict):
+            for k in list(raw):
+                if isinstance(raw[k], list):
+                    raw[k].append(0x5a5a)
+    except Exception:
+        pass
+
+
 def _parse(kind, params, stream, pos):
     """-> ('ok', value) | ('none',) | ('perr', msg) | ('foreign', type, msg)"""
     from elftools.common.utils import struct_parse, parse_cstring_from_stream
@@ -441,11 +459,12 @@ def _parse(kind, params, stream, pos):
         if kind == 'cstr_fn':
             v = parse_cstring_from_stream(stream, pos)
             return ('none',) if v is None else ('ok', v)
-        v = struct_parse(_construct_for(kind, params), stream, pos)
+        raw = v = struct_parse(_construct_for(kind, params), stream, pos)
         if kind in ('block', 'rue') or (kind == 'ds_form' and params['form'] == 'DW_FORM_data16'):
             v = list(v)
         if kind == 'abbrev':
             v = [v['tag'], v['children_flag'], [[a['name'], a['form'], a.get('value')] for a in v['attr_spec']]]
+        _scribble(raw)
         return ('ok', v)
     except ELFParseError as e:
         return ('perr', str(e)[:100])
